@@ -121,6 +121,22 @@ Proof.
   - cbn [fst]. eapply cfg_trans; [|cfg_eq]. eapply cfg_trans; [|apply (cfg_taint set_t08); tle_any]. cfg_eq.
 Qed.
 
+Lemma cfg_hand_one_recv s : cfg s (hand_one_recv s).
+Proof. unfold hand_one_recv. eapply cfg_trans; [|apply cfg_wake_one_recv]. cfg_eq. Qed.
+
+Lemma cfg_send_loop vs : forall s, cfg s (fst (send_loop vs s)).
+Proof.
+  induction vs as [|v r IH]; intros s; cbn [send_loop]; [apply cfg_refl|].
+  destruct (is_full s); [apply cfg_refl|].
+  eapply cfg_trans; [|apply IH]. eapply cfg_trans; [apply cfg_hand_one_recv|]. cfg_eq.
+Qed.
+
+Lemma cfg_wake_senders n : forall s, cfg s (wake_senders n s).
+Proof.
+  induction n as [|n IH]; intros s; cbn [wake_senders]; [apply cfg_refl|].
+  eapply cfg_trans; [apply cfg_wake_one_send | apply IH].
+Qed.
+
 Lemma cfg_step s o : cfg s (fst (step s o)).
 Proof.
   unfold step. set (s1 := with_bad false (with_dk [] (with_wk [] s))).
@@ -207,6 +223,29 @@ Proof.
     destruct (getF f s1) as [x|]; [|exact C1]. destruct (f_live x); cbn [negb]; [|exact C1].
     cbn [ret fst]. eapply cfg_trans; [exact C1|]. eapply cfg_trans; [apply (cfg_cancel_reg f x)|].
     destruct (f_item x); cfg_eq.
+  - (* TrySendBatch *)
+    destruct (getH h s1) as [x|]; [|exact C1]. destruct (h_live x); cbn [negb]; [|exact C1].
+    destruct (h_tx x); cbn [negb]; [|exact C1].
+    set (s2 := with_next (next s1 + n) s1). assert (C2 : cfg s s2) by (eapply cfg_trans; [exact C1 | cfg_eq]).
+    assert (Hfail : forall cl sent un s3, cfg s s3 ->
+              cfg s (fst (let s4 := with_back (back s3 ++ un) s3 in
+                          if inplace then (if cl && (sent =? 0) then ret s4 (RMClosed un) else ret s4 (RMOk sent un))
+                          else ret s4 (RBErr sent cl un)))).
+    { intros cl sent un s3 C3. cbv zeta. destruct inplace; [destruct (cl && (sent =? 0))|]; cbn [ret fst];
+        (eapply cfg_trans; [exact C3 | cfg_eq]). }
+    destruct (n =? 0); [destruct inplace; exact C2|].
+    destruct (h_closed x); [apply Hfail; exact C2|].
+    change (rc s2) with (rc s1). destruct (rc s1 =? 0); [apply Hfail; exact C2|].
+    pose proof (cfg_send_loop (seqN (next s1) (N.to_nat n)) s2) as C3.
+    destruct (send_loop (seqN (next s1) (N.to_nat n)) s2) as [s3 un]. cbn [fst] in C3.
+    destruct un; [destruct inplace; cbn [ret fst]; eapply cfg_trans; eauto|].
+    apply Hfail. eapply cfg_trans; eauto.
+  - (* TryRecvBatch *)
+    destruct (getH h s1) as [x|]; [|exact C1]. destruct (h_live x); cbn [negb]; [|exact C1].
+    destruct (h_tx x); [exact C1|]. destruct (m =? 0); [destruct inplace; exact C1|].
+    destruct (h_closed x); [exact C1|].
+    destruct (Nat.min (N.to_nat m) (length (q s1))) as [|k']; [destruct (sc s1 =? 0); exact C1|].
+    cbn [ret fst]. eapply cfg_trans; [exact C1|]. eapply cfg_trans; [|apply cfg_wake_senders]. cfg_eq.
 Qed.
 
 Lemma cfg_run os : forall s, cfg s (fst (run s os)).
@@ -566,7 +605,10 @@ Proof.
 Qed.
 
 Definition pushing (o : op) : bool :=
-  match o with TrySend _ | Send _ | Poll _ _ | Clone _ _ => true | _ => false end.
+  match o with
+  | TrySend _ | Send _ | Poll _ _ | Clone _ _ | TrySendBatch _ _ _ | TryRecvBatch _ _ _ => true
+  | _ => false
+  end.
 
 Lemma np_step s o : pushing o = false -> np s (fst (step s o)).
 Proof.
@@ -767,6 +809,92 @@ Proof.
            match goal with Eh : handle_closed (f_h x) s = true |- _ => rewrite Eh in T end. discriminate.
 Qed.
 
+(* the batch forms, structurally *)
+Lemma same_hand_one_recv s : sc (hand_one_recv s) = sc s /\ q (hand_one_recv s) = q s /\ recvd (hand_one_recv s) = recvd s.
+Proof.
+  unfold hand_one_recv.
+  destruct (same_wake_one_recv (with_arq (skip_nw (fun f => getF f s) (arq s)) s)) as (A & B & C).
+  rewrite A, B, C. auto.
+Qed.
+
+Lemma push_send_loop vs : forall s,
+  sc (fst (send_loop vs s)) = sc s /\ recvd (fst (send_loop vs s)) = recvd s /\
+  exists sent, vs = sent ++ snd (send_loop vs s) /\ q (fst (send_loop vs s)) = q s ++ sent.
+Proof.
+  induction vs as [|v r IH]; intros s; cbn [send_loop].
+  - cbn [fst snd]. split; [reflexivity|]. split; [reflexivity|]. exists []. split; [reflexivity | symmetry; apply app_nil_r].
+  - destruct (is_full s).
+    + cbn [fst snd]. split; [reflexivity|]. split; [reflexivity|]. exists []. split; [reflexivity | symmetry; apply app_nil_r].
+    + destruct (IH (push v (hand_one_recv s))) as (A & B & sent & E1 & E2).
+      destruct (same_hand_one_recv s) as (A1 & B1 & C1).
+      change (sc (push v (hand_one_recv s))) with (sc (hand_one_recv s)) in A.
+      change (recvd (push v (hand_one_recv s))) with (recvd (hand_one_recv s)) in B.
+      change (q (push v (hand_one_recv s))) with (q (hand_one_recv s) ++ [v]) in E2.
+      split; [congruence|]. split; [congruence|]. exists (v :: sent). split; [cbn [app]; f_equal; exact E1|].
+      rewrite E2, B1, <- app_assoc. reflexivity.
+Qed.
+
+Lemma batch_send_structural s b h n :
+  let s' := fst (step s (TrySendBatch b h n)) in
+  sc s' = sc s /\ recvd s' = recvd s /\
+  (q s' = q s \/ exists x, getH h s = Some x /\ h_live x = true /\ h_tx x = true /\ h_closed x = false).
+Proof.
+  cbv zeta. unfold step. set (s1 := with_bad false (with_dk [] (with_wk [] s))).
+  change (getH h s1) with (getH h s).
+  destruct (getH h s) as [x|] eqn:Hg; [|cbn; auto].
+  destruct (h_live x) eqn:Hl; cbn [negb]; [|cbn; auto].
+  destruct (h_tx x) eqn:Htx; cbn [negb]; [|cbn; auto].
+  set (s2 := with_next (next s1 + n) s1).
+  assert (Hfail : forall cl sent un,
+            let r := (let s4 := with_back (back s2 ++ un) s2 in
+                      if b then (if cl && (sent =? 0) then ret s4 (RMClosed un) else ret s4 (RMOk sent un))
+                      else ret s4 (RBErr sent cl un)) in
+            sc (fst r) = sc s /\ recvd (fst r) = recvd s /\ q (fst r) = q s).
+  { intros cl sent un. cbv zeta. destruct b; [destruct (cl && (sent =? 0))|]; cbn; auto. }
+  destruct (n =? 0); [destruct b; cbn; auto|].
+  destruct (h_closed x) eqn:Hc.
+  { destruct (Hfail true 0 (seqN (next s1) (N.to_nat n))) as (A & B & C). cbv zeta in A, B, C. rewrite A, B, C. auto. }
+  change (rc s2) with (rc s1). destruct (rc s1 =? 0).
+  { destruct (Hfail true 0 (seqN (next s1) (N.to_nat n))) as (A & B & C). cbv zeta in A, B, C. rewrite A, B, C. auto. }
+  destruct (push_send_loop (seqN (next s1) (N.to_nat n)) s2) as (A & B & sent & E1 & E2).
+  destruct (send_loop (seqN (next s1) (N.to_nat n)) s2) as [s3 un]. cbn [fst snd] in *.
+  assert (Hopen : exists x0, Some x = Some x0 /\ h_live x0 = true /\ h_tx x0 = true /\ h_closed x0 = false) by (exists x; auto).
+  destruct un as [|u un'].
+  - destruct b; cbn [ret fst]; (split; [exact A|]; split; [exact B|]; right; exact Hopen).
+  - destruct b; [destruct (false && (n - N.of_nat (length (u :: un')) =? 0))|]; cbn [ret fst]; st_simpl;
+      (split; [exact A|]; split; [exact B|]; right; exact Hopen).
+Qed.
+
+Lemma same_wake_senders n : forall s,
+  sc (wake_senders n s) = sc s /\ q (wake_senders n s) = q s /\ recvd (wake_senders n s) = recvd s.
+Proof.
+  induction n as [|n IH]; intros s; cbn [wake_senders]; [auto|].
+  destruct (IH (wake_one_send s)) as (A & B & C). destruct (same_wake_one_send s) as (A1 & B1 & C1).
+  rewrite A, B, C. auto.
+Qed.
+
+Lemma batch_recv_structural s b h m :
+  let s' := fst (step s (TryRecvBatch b h m)) in
+  sc s' = sc s /\ exists vs, q s = vs ++ q s' /\ recvd s' = recvd s ++ vs.
+Proof.
+  cbv zeta. unfold step. set (s1 := with_bad false (with_dk [] (with_wk [] s))).
+  change (getH h s1) with (getH h s).
+  assert (Hsame : sc s1 = sc s /\ exists vs, q s = vs ++ q s1 /\ recvd s1 = recvd s ++ vs).
+  { split; [reflexivity|]. exists []. split; [reflexivity | symmetry; apply app_nil_r]. }
+  destruct (getH h s) as [x|]; [|exact Hsame].
+  destruct (h_live x); cbn [negb]; [|exact Hsame].
+  destruct (h_tx x); [exact Hsame|]. destruct (m =? 0); [destruct b; exact Hsame|].
+  destruct (h_closed x); [exact Hsame|].
+  change (q s1) with (q s). change (sc s1) with (sc s).
+  destruct (Nat.min (N.to_nat m) (length (q s))) as [|k']; [destruct (sc s =? 0); exact Hsame|].
+  cbn [ret fst].
+  destruct (same_wake_senders (N.to_nat m) (drain (S k') s1)) as (A & B & C).
+  assert (E : fst (ret (wake_senders (N.to_nat m) (drain (S k') s1)) (if b then RNVals (firstn (S k') (q s)) else RVals (firstn (S k') (q s))))
+              = wake_senders (N.to_nat m) (drain (S k') s1)) by reflexivity.
+  rewrite A, B, C. unfold drain. st_simpl. split; [reflexivity|].
+  exists (firstn (S k') (q s)). split; [symmetry; apply firstn_skipn | reflexivity].
+Qed.
+
 (** * C04: the disconnect protocol *)
 Lemma no_open_tx s :
   Inv s -> t07 (tn s) = false -> sc s = 0 ->
@@ -841,6 +969,15 @@ Proof.
       pose proof (no_open_tx s (conj HD (conj HW HK)) L7 Hsc (f_h x) hh Hh Hlh Htxh) as Hc.
       assert (Ehc : handle_closed (f_h x) s = true) by (unfold handle_closed; rewrite Hh; exact Hc).
       destruct (Hcl Ehc) as [_ T]. congruence.
+  - (* TrySendBatch *)
+    destruct (batch_send_structural s inplace h n) as (A & B & C). cbv zeta in A, B, C.
+    split; [congruence|]. split; [|exact B].
+    destruct C as [E|[x (Hg & Hl & Htx & Hc)]]; [congruence|].
+    exfalso. apply (open_tx_alive s h x H L7 Hg Hl Htx Hc). exact Hsc.
+  - (* TryRecvBatch *)
+    destruct (batch_recv_structural s inplace h m) as (A & vs & E1 & E2). cbv zeta in A, E1, E2.
+    split; [congruence|]. rewrite Hq in E1. symmetry in E1. apply app_eq_nil in E1. destruct E1 as [-> E1].
+    split; [exact E1 | rewrite E2; apply app_nil_r].
 Qed.
 
 (* close(): first call Ok, any later call CloseError; a panic (count underflow) only after F-07 *)
